@@ -227,6 +227,7 @@ type Req struct {
 	Raw    *string     // raw body, overrides Form/Pairs
 	CT     string      // content type override
 	NoCT   bool
+	Hdr    map[string]string // further request headers (what browsers, proxies and CDNs add of their own accord)
 }
 
 // World is one authboss instance and its surroundings. Not goroutine safe (sequential monitor).
@@ -953,6 +954,9 @@ func (w *World) DoOn(h http.Handler, b *Browser, rq Req) *Rec {
 	}
 	if ch := b.cookieHeader(); ch != "" {
 		req.Header.Set("Cookie", ch)
+	}
+	for k, v := range rq.Hdr {
+		req.Header.Set(k, v)
 	}
 	req.RemoteAddr = fmt.Sprintf("10.0.0.%d:4000", b.ID+1)
 	ctx := context.WithValue(req.Context(), oauth2.HTTPClient, &http.Client{Transport: w.Prov})
